@@ -37,7 +37,9 @@ def gen_case(rng, tier):
               "sel2": {"t": "tuple", "p": list(rng.choice(paths))},
               "step": rng.choice([0.05, 0.2]), "L": rng.randint(1, 2), "n_steps": n, "burn_in": burn, "thin": thin,
               "n_chains": rng.choice([1, 1, 1, 2, 3]), "regime": rng.choice(["scripted", "scripted", "real"]),
-              "key": rng.randint(0, 2**30), "sseed": rng.randint(0, 2**30)})
+              "key": rng.randint(0, 2**30), "sseed": rng.randint(0, 2**30),
+              # an earlier run of the *same* chain object with other settings (history)
+              "pilot": rng.random() < 0.4})
     if kern == "deterministic":
         c["n_chains"] = 1
     return c
@@ -92,11 +94,15 @@ def run_case(case):
     try:
         tr0 = gpjax.seed(gf.simulate)(jax.random.key(case["key"]), h)
         idx = list(range(B, N, T))
-        run = lambda: chain(kern)(tr0, const(N), burn_in=const(B), autocorrelation_resampling=const(T), n_chains=const(C))
+        ch = chain(kern)  # one chain object for every call of this history
+        if case.get("pilot"):
+            probes["pilot_run"] = 1
+            gpjax.seed(lambda: ch(tr0, const(N + 2), burn_in=const(1), n_chains=const(C)))(jax.random.key(case["key"] + 7))
+        run = lambda: ch(tr0, const(N), burn_in=const(B), autocorrelation_resampling=const(T), n_chains=const(C))
         if case["regime"] == "real":
             key = jax.random.key(case["key"] + 1)
             res = gpjax.seed(run)(key)
-            full = gpjax.seed(lambda: chain(kern)(tr0, const(N), n_chains=const(C)))(key)
+            full = gpjax.seed(lambda: ch(tr0, const(N), n_chains=const(C)))(key)
             evals += 2
             take = (lambda x: x[:, jnp.asarray(idx)]) if C > 1 else (lambda x: x[jnp.asarray(idx)])
             want_traces = jtu.tree_map(take, full.traces)
